@@ -28,7 +28,7 @@ T_Start ==
   /\ inbox' = HonestAnswer(Rec[l].shape, Rec[l].denial, Rec[l].qk)
   /\ msg' = <<>> /\ gi' = 1 /\ gst' = <<>> /\ walk' = <<>>
   /\ node' = [z \in AllZones |-> "none"] /\ tkeys' = [z \in AllZones |-> {}]
-  /\ dsd' = <<>> /\ ttl0' = {} /\ probes' = 0 /\ entp' = FALSE /\ run' = 1 /\ hist' = <<>> /\ late' = FALSE /\ shortz' = {}
+  /\ dsd' = <<>> /\ ttl0' = {} /\ probes' = 0 /\ entp' = "no" /\ run' = 1 /\ hist' = <<>> /\ late' = FALSE /\ shortz' = {}
   /\ served' = <<>> /\ fetches' = <<>> /\ result' = "none" /\ steps' = 0
   /\ Adv(1)
 
